@@ -1,5 +1,6 @@
 (* C29 — graph exports are well-formed for any model and metamodel. *)
-From TxV Require Import Core.Base Model.ExportDefs Gen.SrcExport Model.Export Model.ExportWalk Proofs.ExportProofs Proofs.ExportDocProofs Proofs.ExportWalkProofs.
+From Coq Require Import String.
+From TxV Require Import Core.Base Model.ExportDefs Gen.SrcExport Model.Export Model.ExportWalk Model.ExportMeta Proofs.ExportProofs Proofs.ExportDocProofs Proofs.ExportWalkProofs Proofs.ExportMetaProofs.
 
 (* dot_escape is the replacement chain translated from textx/export.py.  For every string s, the text
    <quote> dot_escape s <quote> rest  is scanned by the DOT string scanner as exactly one quoted string
@@ -148,3 +149,65 @@ Proof.
   - vm_compute. intros [H|[H|[H|[]]]]; discriminate.
 Qed.
 Print Assumptions C29_nodes_nonvacuous.
+
+(* ---- metamodel exports.  ExportMeta.mm_stmts transcribes metamodel_export_tofile over the class list of
+   get_unified_classes for any renderer; with DotRenderer / PlantUmlRenderer it is compared text for text with
+   the implementation on every generated metamodel.  has_node c: c is in the exported list (fqn not a built-in
+   type name), its name is no built-in type name and it is not a match rule = the common and abstract classes of
+   the grammar.  For every class list and every renderer: *)
+
+(* every such class gets exactly one node statement (DOT) / class declaration (PlantUML) *)
+Theorem C29_mm_nodes : forall cl R k c, nth_error cl k = Some c -> has_node c = true ->
+  count_occ Nat.eq_dec (mnode_ids (mm_stmts cl R)) k = 1.
+Proof. exact mm_node_once. Qed.
+Print Assumptions C29_mm_nodes.
+
+(* nothing else is declared, except a built-in abstract class (OBJECT) once per attribute of that type; never a
+   match rule *)
+Theorem C29_mm_nodes_only : forall cl R k, In k (mnode_ids (mm_stmts cl R)) ->
+  exists c, nth_error cl k = Some c /\ is_match c = false /\ (has_node c = true \/ in_classes c = false).
+Proof. exact mm_node_only. Qed.
+Print Assumptions C29_mm_nodes_only.
+
+(* the statement tagged as the declaration of class k is the renderer's text for class k *)
+Theorem C29_mm_node_text : forall cl R k t, In (MNode k, t) (mm_stmts cl R) ->
+  exists c, nth_error cl k = Some c /\ t = r_class R cl k c.
+Proof. exact mm_node_text. Qed.
+Print Assumptions C29_mm_node_text.
+
+(* links and specialisation edges only join declared classes, given what textX guarantees about the class list
+   (wf_mm: decidable, evaluated on every dumped list) *)
+Theorem C29_mm_edges_declared : forall cl R, wf_mm cl = true -> forall a b, In (a, b) (medges (mm_stmts cl R)) ->
+  In a (mnode_ids (mm_stmts cl R)) /\ In b (mnode_ids (mm_stmts cl R)).
+Proof. exact mm_edges_declared. Qed.
+Print Assumptions C29_mm_edges_declared.
+
+(* the PlantUML document is @startuml, then header rest, statements and legend, then @enduml; the DOT one is the
+   header (digraph ... {), statements and match-rule table, then the closing brace *)
+Theorem C29_plantuml_shape : forall cl lt rows,
+  mm_pu_doc cl lt rows = pu_start ++ (pu_header_rest lt ++ flat_map snd (mm_stmts cl pu_renderer) ++ pu_legend rows) ++ pu_end.
+Proof. exact pu_doc_shape. Qed.
+Print Assumptions C29_plantuml_shape.
+
+Theorem C29_mm_dot_shape : forall cl rows,
+  mm_dot_doc cl rows = export_header ++ (flat_map snd (mm_stmts cl dot_renderer) ++ dot_table rows) ++ dot_close.
+Proof. exact dot_doc_shape. Qed.
+Print Assumptions C29_mm_dot_shape.
+
+(* non-vacuity: Model (common: items+=Item, o=OBJECT, t=Tok), Item (abstract: Sub), Sub (common), Tok (match),
+   the built-in ID (match) and OBJECT (abstract) *)
+Local Open Scope string_scope.
+Example C29_mm_nonvacuous :
+  let cl := [mkMCls (codes "Model") (codes "Model") KCommon
+               [mkMAttr (codes "items") 1 M1s true true; mkMAttr (codes "o") 5 M1 true true; mkMAttr (codes "t") 3 M1 true false] [];
+             mkMCls (codes "Item") (codes "Item") KAbstract [] [2%nat];
+             mkMCls (codes "Sub") (codes "Sub") KCommon [mkMAttr (codes "name") 4 M1 true false] [];
+             mkMCls (codes "Tok") (codes "Tok") KMatch [] [];
+             mkMCls (codes "ID") (codes "ID") KMatch [] [];
+             mkMCls (codes "OBJECT") (codes "OBJECT") KAbstract [] []] in
+  wf_mm cl = true
+  /\ mnode_ids (mm_stmts cl dot_renderer) = [0; 1; 2; 5]%nat
+  /\ medges (mm_stmts cl pu_renderer) = [(0, 1); (1, 2)]%nat
+  /\ map has_node cl = [true; true; true; false; false; false].
+Proof. vm_compute. repeat split; reflexivity. Qed.
+Print Assumptions C29_mm_nonvacuous.
